@@ -51,10 +51,10 @@ func main() {
 	}
 	selfTest(r)
 	if os.Getenv("C02_SKIP_A") == "" {
-		layerA(r, r.N(56, 1500), r.N(160, 500), r.N(64, 110))
+		layerA(r, r.N(20, 1200), r.N(120, 400), r.N(48, 100))
 	}
 	if os.Getenv("C02_SKIP_B") == "" {
-		layerB(r, r.N(36, 900))
+		layerB(r, r.N(120, 6000))
 	}
 
 	for e := 0; e < nEntries; e++ {
